@@ -66,11 +66,13 @@ pub struct Case {
     /// data separator spelling: 0 `,`, 1 ` , `
     pub sepstyle: u8,
     pub nested: bool,
+    /// the observed unit's header is written absolute (`:OBS` / `:BR:OBS`)
+    pub colon: bool,
 }
 
 impl Case {
     pub fn to_json(&self) -> Value {
-        json!({"kind": "c06", "elems": self.elems, "req": self.req, "opt": self.opt, "pos": self.pos, "tail": self.tail, "query": self.query, "sepstyle": self.sepstyle, "nested": self.nested})
+        json!({"kind": "c06", "elems": self.elems, "req": self.req, "opt": self.opt, "pos": self.pos, "tail": self.tail, "query": self.query, "sepstyle": self.sepstyle, "nested": self.nested, "colon": self.colon})
     }
     pub fn from_json(v: &Value) -> Option<Case> {
         Some(Case {
@@ -82,6 +84,7 @@ impl Case {
             query: v["query"].as_bool()?,
             sepstyle: v["sepstyle"].as_u64()? as u8,
             nested: v["nested"].as_bool()?,
+            colon: v["colon"].as_bool().unwrap_or(false),
         })
     }
     /// message text and byte offset of each element of the observed unit
@@ -95,8 +98,11 @@ impl Case {
             }
             m.extend_from_slice(nb_before.as_bytes());
             m.push(b';');
-        } else if self.nested {
+        } else if self.nested && !self.colon {
             m.extend_from_slice(b"BR:");
+        }
+        if self.colon {
+            m.extend_from_slice(if self.nested { b":BR:" } else { b":" });
         }
         m.extend_from_slice(b"OBS");
         if self.query {
@@ -345,7 +351,9 @@ pub fn enumerate(max_n: usize, all_elems: bool) -> Vec<Case> {
                             // rotate the cheap dimensions instead of multiplying them
                             let sepstyle = ((t.len() + req as usize + pos as usize) % 2) as u8;
                             let nested = (t.len() + opt as usize + tail as usize) % 3 == 0;
+                            let colon = (t.len() + req as usize + opt as usize + tail as usize + query as usize) % 2 == 1;
                             out.push(Case {
+                                colon,
                                 elems: t.clone(),
                                 req,
                                 opt,
@@ -463,7 +471,7 @@ pub fn run(ctx: &'static Ctx) -> i32 {
     let mut c = cov();
     c.insert("evaluations".into(), json!(runs));
     c.insert("distinct_nontrivial".into(), json!(nt));
-    c.insert("rule".into(), json!(format!("observed unit `OBS[?]` with every n-tuple (n = 0..{}) over {} data representatives (character, NR3, number+suffix, #H, strings containing `;` and `,` and doubled quotes, block containing `;,;`, expression) x handler pull patterns (r required then o optional, r in 0..3, r+o <= 4) x unit position (first / middle / last, neighbours carry their own distinguishable data) x follower (end of input, NL, blank, trailing `;`) x event/query; separator spelling and nested/flat tree rotate. Oracle: pulls return the first min(n, r+o) elements of that unit with identical type and byte range; the next required pull gives -109, the next optional one None; n > r+o fails with -108 and the next unit's handler does not run; neighbours never see the observed unit's data. Each case is run twice: with a handler that pulls raw tokens and with one that uses the typed API (next_data::<u8> / next_optional_data::<u8>), where a present element must be offered (value or conversion error) and never reported absent. Plus a directed family of indefinite-length `#0` blocks whose payload contains NL, `;`, `,` and quotes (the block is everything up to the terminating NL; nothing inside it is another unit). Distinct non-trivial = cases whose arity does not match exactly", ctx.tier.pick(3, 4), ELEMS.len())));
+    c.insert("rule".into(), json!(format!("observed unit `OBS[?]` with every n-tuple (n = 0..{}) over {} data representatives (character, NR3, number+suffix, #H, strings containing `;` and `,` and doubled quotes, block containing `;,;`, expression) x handler pull patterns (r required then o optional, r in 0..3, r+o <= 4) x unit position (first / middle / last, neighbours carry their own distinguishable data) x follower (end of input, NL, blank, trailing `;`) x event/query; separator spelling, nested/flat tree and relative/absolute (`:`) spelling of the observed header rotate. Oracle: pulls return the first min(n, r+o) elements of that unit with identical type and byte range; the next required pull gives -109, the next optional one None; n > r+o fails with -108 and the next unit's handler does not run; neighbours never see the observed unit's data. Each case is run twice: with a handler that pulls raw tokens and with one that uses the typed API (next_data::<u8> / next_optional_data::<u8>), where a present element must be offered (value or conversion error) and never reported absent. Plus a directed family of indefinite-length `#0` blocks whose payload contains NL, `;`, `,` and quotes (the block is everything up to the terminating NL; nothing inside it is another unit). Distinct non-trivial = cases whose arity does not match exactly", ctx.tier.pick(3, 4), ELEMS.len())));
     c.insert("exhaustive".into(), json!(true));
     c.insert("samples".into(), json!([esc(&s0), esc(&s1)]));
     ctx.finish("exploration", c, vec!["token payload ranges are compared as byte offsets into the message (string payloads keep doubled quotes, as C04 fixes)".into()])
